@@ -171,6 +171,25 @@ def specdir():
     return _specdir
 
 
+def tlapm(module, timeout=900):
+    """Check the proofs of a module with the TLA+ proof system. A proof is a fact about the specification, not
+    about the code: the result goes into the evidence and is never a verdict. Returns (proved, total) or None."""
+    sd = specdir()
+    try:
+        p = subprocess.run(["timeout", str(timeout), "tlapm", "--threads", str(min(NCPU, 8)), "--stretch", "20", "--cleanfp", module],
+                           cwd=sd, capture_output=True, text=True)
+    except OSError:
+        return None
+    txt = p.stdout + p.stderr
+    m = re.search(r"All (\d+) obligations? proved", txt)
+    if m:
+        return int(m.group(1)), int(m.group(1))
+    m = re.search(r"(\d+)/(\d+) obligations? failed", txt)
+    if m:
+        return int(m.group(2)) - int(m.group(1)), int(m.group(2))
+    return None
+
+
 def tlc(module, cfg, env=None, workers=None, timeout=1500, extra=(), deque=False, xss="64m"):
     sd = specdir()
     meta = tempfile.mkdtemp(prefix="meta-", dir=scratch())
